@@ -157,6 +157,8 @@ def generate(rng, tier, idx):
                 op['fault'] = {'kind': 'hostile_input_id', 'ident': ident}
         if front == 'iter' and rng.random() < 0.4:
             op['iter_style'] = rng.choice(['subclass', 'own'])
+        if front == 'iter' and rng.random() < 0.3:
+            op['shared_writer'] = True
         if front == 'csv':
             op['out_to'] = rng.choice(['file', 'stdout'])
         if front == 'sqlite' and rng.random() < 0.3:
@@ -364,6 +366,8 @@ class World(object):
                 if len(df.index) and len(df.columns):
                     df.iat[r % len(df.index), c % len(df.columns)] = markers[kind]
         self.txn_lost = None
+        self.shared_writer = None
+        self.shared_out = None
         self.dfA_snap = self.dfA.copy(deep=True)
         self.dfB_snap = self.dfB.copy(deep=True)
         self.dfA_cells = df_cells(self.dfA)
@@ -533,7 +537,16 @@ def run_op(t, world, op):
             out = []
             produced['py_rows'] = out
             it = make_caller_iterator(t, op.get('iter_style'), world.A, world.header)
-            wr = RefusingWriter(out, fault['at']) if fault and fault['kind'] == 'refuse' else t.engine.TableWriter(out)
+            if op.get('shared_writer') and not (fault and fault['kind'] == 'refuse'):
+                # a caller that collects the results of several queries in one table through one writer object
+                if world.shared_writer is None:
+                    world.shared_out = []
+                    world.shared_writer = t.engine.TableWriter(world.shared_out)
+                out = world.shared_out
+                produced['py_rows'] = None      # (rows of earlier queries are in there too; aliasing is judged on fresh outputs)
+                wr = world.shared_writer
+            else:
+                wr = RefusingWriter(out, fault['at']) if fault and fault['kind'] == 'refuse' else t.engine.TableWriter(out)
             reg = t.engine.ListTableRegistry([t.engine.ListTableInfo('B', world.B, world.jheader)])
             t.engine.query(op['query'], it, wr, warnings, reg)
             outcome = ['ok', len(out)]
